@@ -285,6 +285,7 @@ func vScenarioC01(rc *runCtx) {
 	o.srcPaths = spec.paths
 	o.dstDir = dst
 	o.kHash = []int64{0, 1024, 4096}[tp.Draw("c01.khash", 3)]
+	o.trigSplitLF = !cfg.srvWindows && cfg.srvTmux == "" && tp.Bool("c01.trigsplitlf", 100)
 	o.profile = vDrawProfile(tp, cfg.timeout)
 	if cfg.upload && !cfg.fork && tp.Bool("c01.dragupload", 250) {
 		o.uploadVia = 1 + tp.Draw("c01.uploadvia", 2)
